@@ -9,7 +9,7 @@ LEVEL = 'exploration'
 RULE = ('case = one read/write of size 1/2/4/8 in a random history (200 ops) over a generated controller list '
         '(1-6 devices, sizes 0..64 incl. odd, adjacent/gapped/overlapping/ending at 2^32/straddling 2^32/above 4 GB: physical '
         'addresses are 40 bits); in 40% of the histories the registry itself changes between accesses of the same hub object '
-        '(a device replaced by one elsewhere, unplugged and another plugged in, moved, inserted in front, added, removed); after every op all '
+        '(a device replaced by one elsewhere, unplugged and another plugged in, moved, inserted in front, added, removed, mirrored by a second window onto the same device object); after every op all '
         'devices are compared byte for byte with a first-match-wins list-of-bytearrays model; controllers whose window is longer than their RAM (bytes beyond the RAM behave like a device end); non-trivial = the op '
         'hits a mapped device; distinct = (op, size, position class relative to device end/start, layout class, '
         'hit-device index)')
@@ -134,10 +134,18 @@ def _apply_registry(hub, devs, model, mut):
         hub.memories.pop(i)
         devs.pop(i)
         model.pop(i)
+    elif kind == 'mirror':
+        # a second window onto the SAME device object (a mirror, or one RAM decoded at two addresses): both windows reach
+        # the same bytes, each with its own offset
+        _, i, b = mut
+        ln = devs[i][1] - devs[i][0]
+        hub.memories.append(MemoryController(hub.memories[i].mem, b, b + ln))
+        devs.append([b, b + ln])
+        model.append(model[i])
 
 
 def _mutate_registry(rng, hub, devs, model):
-    kind = rng.choice(['replace', 'replace', 'unplug-plug', 'unplug-plug', 'move', 'move', 'insert-front', 'add', 'remove'])
+    kind = rng.choice(['replace', 'replace', 'unplug-plug', 'unplug-plug', 'move', 'move', 'insert-front', 'add', 'remove', 'mirror', 'mirror'])
     if kind == 'remove' and len(devs) < 2:
         kind = 'replace'
     lo = min(b for b, e in devs)
@@ -159,6 +167,11 @@ def _mutate_registry(rng, hub, devs, model):
             mut = [kind, i, min(b, (1 << 40) - (devs[i][1] - devs[i][0]))]
     elif kind in ('insert-front', 'add'):
         mut = [kind, b, e, salt]
+    elif kind == 'mirror':
+        if len(model[i]) != devs[i][1] - devs[i][0]:
+            mut = ['replace', i, b, e, salt]
+        else:
+            mut = [kind, i, min(b, (1 << 40) - (devs[i][1] - devs[i][0]))]
     else:
         mut = [kind, i]
     _apply_registry(hub, devs, model, mut)
